@@ -88,7 +88,7 @@ func c12Body(t *rapid.T, w *world1) []byte {
 		return j
 	case 7: // validly signed server authorization (peer down), long location
 		as := ref.AuthServer{PublicKey: keyFor(fmt.Sprintf("c12-peer-%d", rapid.IntRange(0, 3).Draw(t, "pk"))).Pub, Banned: rapid.Bool().Draw(t, "b"),
-			Location: rapid.SampledFrom([]string{"127.0.0.1", "", "no-such-host.invalid", strings.Repeat("h", 255), strings.Repeat("h", 300), "127.0.0.1:99999", "[::1", "%zz"}).Draw(t, "loc"), HttpPort: drawU16(t, "hp"), TcpPort: drawU16(t, "tp"), UdpPort: drawU16(t, "up")}
+			Location: rapid.SampledFrom([]string{"127.0.0.1", "", "no-such-host.invalid", strings.Repeat("h", 255), strings.Repeat("h", 300), "127.0.0.1:99999", "[::1", "%zz"}).Draw(t, "loc"), HttpPort: rapid.SampledFrom([]uint16{0, 1, 9, 65535}).Draw(t, "hp"), TcpPort: drawU16(t, "tp"), UdpPort: drawU16(t, "up")}
 		as.Sig = ref.Sign(s.gca, as.SigningBytes())
 		j, _ := json.Marshal(world.ToGlowServer(as))
 		return j
@@ -490,6 +490,33 @@ func TestC12Shutdown(t *testing.T) {
 			}
 			if err := s.S.SendUDP(ref.SignedReport(w.devKey[w.devs[0]], w.devs[0], s.now, 5).Encode()); err != nil {
 				s.fail("reports not processed while a handler waits for a stalled peer: %v", err)
+			}
+			// every other surface, in particular those that need the server-list mutex
+			probeDone := make(chan string, 1)
+			pk := w.devKey[w.devs[0]].Pub
+			go func() {
+				for _, path := range []string{"/api/v1/authorized-servers", "/api/v1/all-device-stats?timeslot_offset=0", "/api/v1/recent-reports?publicKey=" + hex.EncodeToString(pk[:])} {
+					if st, _, err := s.S.Get(path); err != nil || st != 200 {
+						probeDone <- fmt.Sprintf("GET %s: %v %d", path, err, st)
+						return
+					}
+				}
+				if _, refused, err := s.S.SyncDevice(w.devs[0]); err != nil || refused {
+					probeDone <- fmt.Sprintf("sync request: %v refused=%v", err, refused)
+					return
+				}
+				probeDone <- ""
+			}()
+			select {
+			case why := <-probeDone:
+				if why != "" {
+					s.fail("while a handler waits for a stalled peer: %s", why)
+				}
+			case <-time.After(3 * time.Second):
+				s.fail("other requests (authorized-servers / statistics / recent-reports / sync) are not answered within 3 s while a handler waits for a stalled peer")
+			}
+			if _, b := s.S.S.VerifTryLocks(); !b {
+				s.fail("the server-list mutex is held while a handler waits for a stalled peer")
 			}
 		}
 		s.logf("shutdown with %d idle/half-sent sync connections, stalled peer=%v", nIdle, stall)
